@@ -1,7 +1,7 @@
 package main
 
 // libgenSource is a small program that uses the generator as a library: the schema is parsed ONCE and the package is
-// generated from that one parsed document into every directory given (a new Generator per directory).
+// generated from that one parsed document into every directory given (a new Generator for each of the first three directories, then ONE Generator executed for all the following ones).
 const libgenSource = `package main
 
 import (
@@ -30,12 +30,20 @@ func main() {
 		fmt.Println("ERROR:", err)
 		os.Exit(2)
 	}
+	var one *generator.Generator
 	for i, out := range os.Args[3:] {
 		if err := os.MkdirAll(out, os.ModePerm); err != nil {
 			fmt.Println("ERROR:", err)
 			os.Exit(2)
 		}
+		// the first three directories: a new Generator each; the following ones: one Generator executed again and again
 		g := generator.NewGenerator(doc, config, filepath.Base(out))
+		if i >= 3 {
+			if one == nil {
+				one = g
+			}
+			g = one
+		}
 		if err := g.Execute(out); err != nil {
 			fmt.Printf("ERROR: generation #%d into %s: %v\n", i+1, out, err)
 			os.Exit(2)
